@@ -20,7 +20,8 @@ type Scenario struct {
 	TickNS      int64        `json:"tick_ns"`
 	Cancel      CancelSpec   `json:"cancel"`
 	Writer      WriterSpec   `json:"writer"`
-	LogErr      bool         `json:"log_err,omitempty"` // dag.Logger's sink fails every write
+	LogErr      bool         `json:"log_err,omitempty"`     // dag.Logger's sink fails every write
+	LogDiscard  bool         `json:"log_discard,omitempty"` // dag.Logger writes to io.Discard
 	Policy      simrt.Policy `json:"policy"`
 	MapBase     string       `json:"map_base,omitempty"`
 	ChSeed      uint64       `json:"chooser_seed"`
@@ -81,6 +82,14 @@ type AttemptSpec struct {
 	Big    bool   `json:"big,omitempty"`    // the first chunk carries 70 KiB of padding (more than any sane internal buffer limit)
 	Cancel string `json:"cancel,omitempty"` // "", entry, exit: call cancel() there
 	DFS    bool   `json:"dfs,omitempty"`    // the task asks its graph for DepthFirstSort() while it runs (a read-only call)
+	// SetRetries: while it runs the task lowers the retry budget of one of its dependents (which
+	// cannot have started yet) through g.TaskRetries(g.Task(id), r)
+	SetRetries *SetRetriesSpec `json:"set_retries,omitempty"`
+}
+
+type SetRetriesSpec struct {
+	T int `json:"t"`
+	R int `json:"r"`
 }
 
 // Call is one public-API call of the construction history.
@@ -148,8 +157,9 @@ type CancelSpec struct {
 }
 
 type WriterSpec struct {
-	Yield   bool `json:"yield,omitempty"`    // the output sink yields inside Write
-	ErrFrom int  `json:"err_from,omitempty"` // k>0: from the k-th Write on the sink rejects everything (closed pipe)
+	Yield   bool   `json:"yield,omitempty"`    // the output sink yields inside Write
+	ErrFrom int    `json:"err_from,omitempty"` // k>0: from the k-th Write on the sink rejects everything (closed pipe)
+	Locker  string `json:"locker,omitempty"`   // "": a plain io.Writer; "mutex": Write takes an embedded mutex, so the sink also has Lock/Unlock; "noop": Lock/Unlock exist and do nothing (noCopy marker)
 }
 
 // ---- reference model of the declared graph ----
@@ -659,15 +669,6 @@ func Generate(seed uint64, o GenOpts) *Scenario {
 	if r.Intn(6) == 0 {
 		sc.DFSProbe = 2 + r.Intn(2)
 	}
-	if r.Intn(8) == 0 {
-		for i := range sc.Tasks {
-			if r.Intn(2) == 0 {
-				for k := range sc.Tasks[i].Attempts {
-					sc.Tasks[i].Attempts[k].DFS = true
-				}
-			}
-		}
-	}
 	if sc.MaxPar > 0 && r.Intn(4) == 0 {
 		sc.MaxParFirst = 1 + r.Intn(5)
 	}
@@ -693,6 +694,10 @@ func Generate(seed uint64, o GenOpts) *Scenario {
 		sc.MaxPar, sc.Serial = 1+r.Intn(2), false
 	}
 	sc.LogErr = r.Intn(10) == 0
+	sc.LogDiscard = !sc.LogErr && r.Intn(8) == 0
+	if sc.Buffer && r.Intn(5) == 0 {
+		sc.Writer.Locker = []string{"mutex", "noop"}[r.Intn(2)]
+	}
 
 	// faults
 	faulty := r.Intn(3) != 0
@@ -884,7 +889,71 @@ func Generate(seed uint64, o GenOpts) *Scenario {
 			sc.Build = append(sc.Build, Call{Op: "add", T: t, Alt: true, Only: 2})
 		}
 	}
+	// Several graphs: the same two Tasks connected in opposite directions (a needs b in g0, b needs a
+	// in g1) - each graph is acyclic on its own
+	if sc.Graphs >= 2 && r.Intn(100) < 20 {
+		m0, m1 := sc.ModelFor(0), sc.ModelFor(1)
+		if m0.DefErrors == 0 && m1.DefErrors == 0 && !m0.Cyclic && !m1.Cyclic {
+			for try := 0; try < 6; try++ {
+				a, b := r.Intn(sc.N), r.Intn(sc.N)
+				if a == b || !m0.Exists[a] || !m0.Exists[b] || reaches(m0, b, a) || reaches(m1, a, b) {
+					continue
+				}
+				sc.Build = append(sc.Build, Call{Op: "dep", T: a, Deps: []int{b}, Only: 1}, Call{Op: "dep", T: b, Deps: []int{a}, Only: 2})
+				break
+			}
+		}
+	}
+	// tasks that ask their graph for its order, or lower the retry budget of a dependent, while they run
+	if r.Intn(8) == 0 {
+		for i := range sc.Tasks {
+			if r.Intn(2) == 0 {
+				for k := range sc.Tasks[i].Attempts {
+					sc.Tasks[i].Attempts[k].DFS = true
+				}
+			}
+		}
+	}
+	if sc.Phase2 == nil && !sc.Again && r.Intn(10) == 0 {
+		ok := true
+		for g := 0; g < sc.Graphs; g++ {
+			if m := sc.ModelFor(g); m.DefErrors != 0 || m.Cyclic {
+				ok = false
+			}
+		}
+		m := sc.ModelFor(0)
+		for t := 0; ok && t < sc.N; t++ {
+			if m.Exists[t] && m.Retries[t] > 0 && len(m.Deps[t]) > 0 && r.Intn(2) == 0 {
+				d := m.Deps[t][r.Intn(len(m.Deps[t]))]
+				for k := range sc.Tasks[d].Attempts {
+					sc.Tasks[d].Attempts[k].SetRetries = &SetRetriesSpec{T: t, R: r.Intn(m.Retries[t])}
+				}
+			}
+		}
+	}
 	return sc
+}
+
+// reaches: in m, does task from (transitively) depend on task to?
+func reaches(m *Model, from, to int) bool {
+	seen := map[int]bool{}
+	var walk func(i int) bool
+	walk = func(i int) bool {
+		if i == to {
+			return true
+		}
+		if seen[i] {
+			return false
+		}
+		seen[i] = true
+		for _, d := range m.Deps[i] {
+			if walk(d) {
+				return true
+			}
+		}
+		return false
+	}
+	return walk(from)
 }
 
 // ---- small-scope sweep: every labelled DAG on k <= 4 vertices ----
